@@ -4,7 +4,8 @@ the model the same per-step input; R3 the prev-hedge chain: hook registration, b
 of shape (N,1,H) before the loop, model invoked through self(...), state-dependence selects the branch.
 Added after the seeded-defect rounds: R2 also: declared feature order in the step-by-step branch (probed with prev_hedge first) and the same last column in both branches; R3c-e on every path.
 Third round: R1p both branches compute in the dtype of the data (nothing computed in the default dtype and converted afterwards); R1h nothing computed from an earlier simulation survives a new one (call histories); R3a the constructor keeps model, criterion and inputs in order.
-Rounds 4-5: R2m built-in models are pointwise in time; R3h hedger-level call histories (one hedger two derivatives; two hedgers sharing feature objects); R3b PrevHedge returns the stored buffer whole; hedgers are built through the real constructor."""
+Rounds 4-5: R2m built-in models are pointwise in time; R3h hedger-level call histories (one hedger two derivatives; two hedgers sharing feature objects); R3b PrevHedge returns the stored buffer whole; hedgers are built through the real constructor.
+Round 7: R4 both branches with the same two hedging instruments; a reshape to permuted extents is not a transpose; R2 accepts stack of (N, H) columns for cat of (N, 1, H) columns."""
 import sympy as sp
 
 from .. import entrypoints as E
